@@ -164,6 +164,8 @@ def repeat_first():
         if conc.shape != conc0.shape:
             bad.append((i, float("nan")))
             continue
+        if conc.size == 0:
+            continue                # an empty field (reported by the property's own shape check) repeats trivially
         tol = 1e-10 if k.get("precision", "single") == "double" else 1e-4
         d = max(float(np.max(np.abs(conc - conc0))) / max(float(np.max(np.abs(conc0))), 1e-300), float(np.max(np.abs(flx - flx0))) / max(float(np.max(np.abs(flx0))), 1e-300))
         if not d <= tol:
